@@ -10,7 +10,7 @@ INT_TYPES = {   # tag: (C type, max digits)
  'i8': ('signed char', 3), 'i16': ('short', 5), 'i32': ('int', 10), 'i64': ('long long', 20),
 }
 CHARS = ('char', 'char16_t', 'char32_t')
-def int_queries(tier):
+def int_queries(tier, WIN=99999):
     qs = []
     for tag, (ty, md) in INT_TYPES.items():
         wide = tag[1:] in ('32', '64')
@@ -18,18 +18,19 @@ def int_queries(tier):
         pairs = md // 2 + 1
         for ch in CHARS:
             b = {'IntToString': pairs + 1, 'ref_parse': pairs + 1, 'Write': md + 2}
-            d = {'NUM': ty, 'CHAR': ch}
+            ents = ['h_n2s', 'h_n2s_rev'] + ([] if signed else ['h_i2s', 'h_i2s_rev'])
             if not wide:
-                # complete: direct Horner oracle over every value of the type
-                for e in ['h_n2s', 'h_n2s_rev'] + ([] if signed else ['h_i2s', 'h_i2s_rev']):
-                    qs.append(Query('int/%s/%s/%s' % (e[2:], tag, ch), 'C10_int.cpp', e, d, bounds=b, timeout=300, mem_gb=8))
+                for e in ents:
+                    qs.append(Query('int/%s/%s/%s' % (e[2:], tag, ch), 'C10_int.cpp', e, {'NUM': ty, 'CHAR': ch}, bounds=b, timeout=300, mem_gb=8))
             else:
                 if not signed:
-                    qs.append(Query('int/base/%s/%s' % (tag, ch), 'C10_int.cpp', 'h_base', d, bounds=b, timeout=300, mem_gb=8))
-                    for e in ('h_step', 'h_step_rev'):
-                        qs.append(Query('int/%s/%s/%s' % (e[2:], tag, ch), 'C10_int.cpp', e, d, bounds=b, backend='cvc5int', timeout=600, mem_gb=8))
-                for e in ('h_wrap', 'h_wrap_rev'):
-                    qs.append(Query('int/%s/%s/%s' % (e[2:], tag, ch), 'C10_int.cpp', e, d, bounds=b, backend='cvc5int', timeout=600, mem_gb=8))
+                    qs.append(Query('int/base/%s/%s' % (tag, ch), 'C10_int.cpp', 'h_base', {'NUM': ty, 'CHAR': ch}, bounds=b, timeout=300, mem_gb=8))
+                for e in ents:
+                    qs.append(Query('int/%s/%s/%s/edge' % (e[2:], tag, ch), 'C10_int.cpp', e, {'NUM': ty, 'CHAR': ch, 'EDGE': 1}, bounds=b, timeout=300, mem_gb=8))
+                    nd = len(str(WIN))
+                    bw = {'IntToString': nd // 2 + 1, 'ref_parse': nd // 2 + 1, 'Write': nd + 1}
+                    qs.append(Query('int/%s/%s/%s/win' % (e[2:], tag, ch), 'C10_int.cpp', e, {'NUM': ty, 'CHAR': ch, 'MAXV': WIN}, bounds=bw, timeout=600, mem_gb=8))
     return qs
 def queries(tier):
-    return int_queries(tier)
+    import os
+    return int_queries(tier, int(os.environ.get('C10_WIN', '99999')))
